@@ -392,7 +392,7 @@ pub fn gen_env(src: &mut Src, cfg: &mut GenCfg, depth: usize) -> Spec {
     if depth >= cfg.max_depth || cfg.budget == 0 {
         return subject;
     }
-    let n = src.weighted(&[45, 22, 14, 8, 5, 3, 2, 1]);
+    let n = if depth == 0 { src.weighted(&[15, 30, 20, 14, 9, 6, 4, 2]) } else { src.weighted(&[45, 22, 14, 8, 5, 3, 2, 1]) };
     if n == 0 {
         return subject;
     }
@@ -526,6 +526,39 @@ pub fn gen_targets(src: &mut Src, m: &M, allow_absent: bool) -> BTreeSet<D32> {
             d[0] ^= 0xa5;
             t.insert(d);
         }
+    }
+    t
+}
+
+/// Target set suited to *revealing* mode: a few chosen elements together with all their ancestors
+/// (so that something stays visible), sometimes with one ancestor left out.
+pub fn gen_reveal_targets(src: &mut Src, m: &M) -> BTreeSet<D32> {
+    // pre-order with parent index
+    let mut els: Vec<(&M, Option<usize>)> = Vec::new();
+    fn rec<'a>(m: &'a M, parent: Option<usize>, out: &mut Vec<(&'a M, Option<usize>)>) {
+        let me = out.len();
+        out.push((m, parent));
+        for c in m.children() {
+            rec(c, Some(me), out);
+        }
+    }
+    rec(m, None, &mut els);
+    let mut t = BTreeSet::new();
+    let picks = 1 + src.below(4);
+    for _ in 0..picks {
+        let mut i = src.below(els.len());
+        loop {
+            t.insert(els[i].0.digest());
+            match els[i].1 {
+                Some(p) => i = p,
+                None => break,
+            }
+        }
+    }
+    if src.chance(30) && t.len() > 1 {
+        // drop one (often an ancestor): everything below it must disappear
+        let v: Vec<D32> = t.iter().cloned().collect();
+        t.remove(&v[src.below(v.len())]);
     }
     t
 }
